@@ -258,6 +258,7 @@ func sample(c Case) any {
 }
 
 var subEnum = vk.Register(&vk.Sub[Case]{Name: "enum", Check: check, NonTrivial: nonTrivial, Sample: sample})
+var subHairpins = vk.Register(&vk.Sub[Case]{Name: "hairpins", Check: check, NonTrivial: nonTrivial, Labels: labels, Sample: sample})
 var subRandom = vk.Register(&vk.Sub[Case]{Name: "random", Gen: gen, Check: check, NonTrivial: nonTrivial, Labels: labels, Sample: sample})
 
 func gen(t *rapid.T) Case {
@@ -274,6 +275,14 @@ func gen(t *rapid.T) Case {
 		u := c.Seq.String()
 		if len(u) <= 48 {
 			c.Seq = vk.SeqSpec{Lit: u + ref.RevComp(u)}
+		}
+	case 3: // hairpin: an arm, 1..3 centre letters, the arm's reverse complement
+		if u := c.Seq.String(); len(u) <= 48 {
+			mid := make([]byte, rapid.IntRange(1, 3).Draw(t, "centre_len"))
+			for i := range mid {
+				mid[i] = alpha[rapid.IntRange(0, len(alpha)-1).Draw(t, "centre_letter")]
+			}
+			c.Seq = vk.SeqSpec{Lit: u + string(mid) + ref.RevComp(u)}
 		}
 	case 2: // low complexity: one letter repeated, with one to three other letters put in
 		n := vk.DrawSize(t, "run_len", 3, 3000)
@@ -311,6 +320,29 @@ func gen(t *rapid.T) Case {
 }
 
 func TestSub_random(t *testing.T) { vk.RunRapid(t, subRandom) }
+
+// TestSub_hairpins: arm + centre + reverse complement of the arm, for every arm length 0..300 and centres
+// that are empty, one letter (self-complementary or not) or two letters: sequences that differ from their
+// reverse complement in the middle only, at every length - the inputs on which a strand comparison that
+// looks at the ends first has to get the middle right.
+func TestSub_hairpins(t *testing.T) {
+	base := vk.Fill(vk.Seed(), 300, "ACGT")
+	vk.RunEnum(t, subHairpins, "arm + centre + rc(arm), arm length 0..300, centres {empty, A, C, G, T, S, W, N, AC, GG}", true, func(yield func(Case) bool) {
+		for n := 0; n <= len(base); n++ {
+			arm := base[:n]
+			for _, centre := range []string{"", "A", "C", "G", "T", "S", "W", "N", "AC", "GG"} {
+				s := arm + centre + ref.RevComp(arm)
+				c := Case{Seq: vk.SeqSpec{Lit: s}, CaseMask: 0x5a5a5a5a5a5a5a5a, Offsets: []int{n, n + 1}}
+				if len(s) <= 24 {
+					c.AllOffsets = true
+				}
+				if !yield(c) {
+					return
+				}
+			}
+		}
+	})
+}
 
 func TestSub_enum(t *testing.T) {
 	acgtMax := vk.Pick(7, 9)
